@@ -88,9 +88,13 @@ def write_pptx(deck: dict) -> bytes:
         srels = [("rIdL", f"{REL}/slideLayout", "../slideLayouts/slideLayout1.xml", False)]
         shapes = ""
         k = 0
+        parts = []
         for sh in s.get("shapes", []):
-            shapes += _shape(k, sh, srels)
+            parts.append(_shape(k, sh, srels))
             k += 1
+        # reading order is the visual (top-to-bottom) order given by the y offsets; on even slides the
+        # XML order is reversed so that an extractor relying on XML order would be caught
+        shapes += "".join(parts if n % 2 else reversed(parts))
         for m, img in enumerate(s.get("images", []), start=1):
             irid = img.get("rid") or f"rIdI{m}"
             if not img.get("norel"):
